@@ -52,6 +52,7 @@ type Exec struct {
 	finite    map[int][]int64
 	atDeclared map[string]bool
 	siteStack []token.Pos
+	sumVars   map[string]*Term
 }
 
 type InputSym struct {
@@ -916,6 +917,25 @@ func (x *Exec) autoInvariants(fr *Frame, lp *loop, over map[ssa.Value]*Val) []*T
 			continue
 		}
 		out = append(out, Ge(cur.T, IntLit(*start)))
+		// range loops: the hidden index never passes the length (index+1 <= len)
+		if phi.Comment == "rangeindex" {
+			for _, hi := range lp.header.Instrs {
+				lt, ok := hi.(*ssa.BinOp)
+				if !ok || lt.Op != token.LSS {
+					continue
+				}
+				inc, ok := lt.X.(*ssa.BinOp)
+				if !ok || inc.Op != token.ADD || inc.X != ssa.Value(phi) {
+					continue
+				}
+				if li, ok := lt.Y.(ssa.Instruction); ok && lp.body[li.Block()] {
+					continue
+				}
+				if lv, ok := fr.env[lt.Y]; ok && lv.T != nil {
+					out = append(out, Le(Add(cur.T, IntLit(1)), lv.T))
+				}
+			}
+		}
 	}
 	return out
 }
@@ -1387,6 +1407,10 @@ func (x *Exec) makeInterface(st *State, v *Val, ifaceT types.Type) *Val {
 		if v.T == nil {
 			unsupportedf("MakeInterface of structured pointer")
 		}
+		// interfaces never hold typed nil pointers: checked here, assumed when a pointer is taken out again
+		if !isAllocTerm(v.T) {
+			x.oblige(st, "nil-boxed", Neq(v.T, IntLit(0)), token.NoPos, "nil pointer converted to an interface")
+		}
 		return &Val{T: mkIface(tag, v.T), Typ: ifaceT}
 	}
 	if v.T == nil {
@@ -1416,6 +1440,7 @@ func (x *Exec) unbox(ref *Term, t types.Type) *Term {
 func (x *Exec) ifaceAs(st *State, iv *Term, ct types.Type) *Val {
 	if _, isPtr := ct.Underlying().(*types.Pointer); isPtr {
 		r := &Val{T: ifRef(iv), Typ: ct}
+		x.ctx.assume(st, Implies(Eq(ifTag(iv), IntLit(int64(TE.TagOf(ct)))), And(Gt(ifRef(iv), IntLit(0)), Lt(ifRef(iv), st.alloc))))
 		if inv := x.typeInv(st, r); inv != True {
 			x.ctx.assume(st, Implies(Eq(ifTag(iv), IntLit(int64(TE.TagOf(ct)))), inv))
 		}
@@ -1594,4 +1619,106 @@ func (x *Exec) divFacts(st *State, a, b *Term) {
 	abs := func(t *Term) *Term { return Ite(Ge(t, IntLit(0)), t, Neg(t)) }
 	q, r := EDiv(abs(a), abs(b)), EMod(abs(a), abs(b))
 	x.ctx.assumeGlobal(st, Implies(Neq(b, IntLit(0)), And(Le(IntLit(0), r), Lt(r, abs(b)), Eq(abs(a), Add(Mul(abs(b), q), r)))))
+}
+
+// sumVar returns the canonical bound variable for a summation index name (one per name and job), so that
+// re-evaluating the same sum expression yields the identical body term.
+func (x *Exec) sumVar(name string) *Term {
+	if x.sumVars == nil {
+		x.sumVars = map[string]*Term{}
+	}
+	if v, ok := x.sumVars[name]; ok {
+		return v
+	}
+	v := BoundVar("sum."+name, SInt)
+	x.sumVars[name] = v
+	return v
+}
+
+// sumTerm: finite sums as an uninterpreted function of the bounds (and of outer bound variables), defined by
+// its two unfolding axioms: sum(lo,hi) = 0 for hi <= lo, and sum(lo,hi) = sum(lo,hi-1) + body[hi-1] for lo < hi.
+func (x *Exec) sumTerm(st *State, bv, body, lo, hi *Term) *Term {
+	free := freeBound(body, map[int]map[int]bool{})
+	var outer []*Term
+	var collect func(t *Term)
+	seen := map[int]bool{}
+	collect = func(t *Term) {
+		if seen[t.id] {
+			return
+		}
+		seen[t.id] = true
+		if t.op == "bound" && free[t.id] && t != bv {
+			outer = append(outer, t)
+		}
+		for _, a := range t.args {
+			collect(a)
+		}
+	}
+	collect(body)
+	name := fmt.Sprintf("sum#%d", body.id)
+	args := append(append([]*Term{}, outer...), lo, hi)
+	var sorts []*Sort
+	for _, a := range args {
+		sorts = append(sorts, a.sort)
+	}
+	DeclareFun(name, SInt, sorts...)
+	if !x.atDeclared[name] {
+		if x.atDeclared == nil {
+			x.atDeclared = map[string]bool{}
+		}
+		x.atDeclared[name] = true
+		// axioms, universally quantified over the bounds and the outer bound variables
+		var qv []*Term
+		sub := map[int]*Term{}
+		for _, o := range outer {
+			nv := BoundVar("o", o.sort)
+			qv = append(qv, nv)
+			sub[o.id] = nv
+		}
+		l := BoundVar("lo", SInt)
+		h := BoundVar("hi", SInt)
+		mkApp := func(a, b *Term) *Term {
+			return App(name, SInt, append(append([]*Term{}, qv...), a, b)...)
+		}
+		sub[bv.id] = Sub(h, IntLit(1))
+		last := substTerm(body, sub)
+		all := append(append([]*Term{}, qv...), l, h)
+		x.ctx.assumeGlobal(st, Forall(all, And(
+			Implies(Le(h, l), Eq(mkApp(l, h), IntLit(0))),
+			Implies(Lt(l, h), Eq(mkApp(l, h), Add(mkApp(l, Sub(h, IntLit(1))), last)))),
+			[]*Term{mkApp(l, h)}))
+	}
+	return App(name, SInt, args...)
+}
+
+// substTerm replaces bound variables (by id) in t.
+func substTerm(t *Term, sub map[int]*Term) *Term {
+	memo := map[int]*Term{}
+	var f func(t *Term) *Term
+	f = func(t *Term) *Term {
+		if r, ok := sub[t.id]; ok {
+			return r
+		}
+		if len(t.args) == 0 {
+			return t
+		}
+		if r, ok := memo[t.id]; ok {
+			return r
+		}
+		changed := false
+		na := make([]*Term, len(t.args))
+		for i, a := range t.args {
+			na[i] = f(a)
+			if na[i] != a {
+				changed = true
+			}
+		}
+		r := t
+		if changed {
+			r = TS.mk(t.op, t.val, t.sort, na...)
+		}
+		memo[t.id] = r
+		return r
+	}
+	return f(t)
 }
